@@ -36,14 +36,14 @@ EndMarks(p) == {"after:" \o ToString(k - 1) : k \in Idx(p)} \cup {"last:" \o ToS
 
 DevOptions(p) ==
   (IF "sep" \in DevTypes THEN {[t |-> "sep", s |-> k, x |-> w, y |-> ""] : k \in Idx(p) \ {1}, w \in {"blank", "comment"}} ELSE {}) \cup
-  (IF "dir" \in DevTypes THEN {[t |-> "dir", s |-> k, x |-> d, y |-> ""] : k \in Idx(p), d \in {"ignore", "start", "end"}} ELSE {}) \cup
+  (IF "dir" \in DevTypes THEN {[t |-> "dir", s |-> k, x |-> d, y |-> ""] : k \in Idx(p), d \in {"ignore", "start", "end", "ignore_ml"}} ELSE {}) \cup
   (IF "semi" \in DevTypes THEN {[t |-> "semi", s |-> k, x |-> "", y |-> ""] : k \in Idx(p)} ELSE {}) \cup
   (IF "cmt" \in DevTypes THEN {[t |-> "cmt", s |-> k, x |-> "after", y |-> ""] : k \in Idx(p)} ELSE {}) \cup
   (IF "mline" \in DevTypes THEN {[t |-> "mline", s |-> k, x |-> "", y |-> ""] : k \in {j \in Idx(p) : p[j].k = "R"}} ELSE {}) \cup
   (IF "range" \in DevTypes THEN {[t |-> "range", s |-> 0, x |-> a, y |-> b] : a \in StartMarks(p), b \in EndMarks(p)} \ {[t |-> "range", s |-> 0, x |-> "none", y |-> "none"]} ELSE {})
 
 TypeRank(t) == CASE t = "sep" -> 1 [] t = "dir" -> 2 [] t = "semi" -> 3 [] t = "cmt" -> 4 [] t = "mline" -> 5 [] t = "range" -> 6
-XRank(x) == CASE x = "blank" -> 1 [] x = "comment" -> 2 [] x = "ignore" -> 1 [] x = "start" -> 2 [] x = "end" -> 3 [] OTHER -> 0
+XRank(x) == CASE x = "blank" -> 1 [] x = "comment" -> 2 [] x = "ignore" -> 1 [] x = "start" -> 2 [] x = "end" -> 3 [] x = "ignore_ml" -> 4 [] OTHER -> 0
 Rank(d) == TypeRank(d.t) * 1000 + d.s * 10 + XRank(d.x)
 
 Init == prog \in Programs /\ devs = <<>>
@@ -60,7 +60,9 @@ Spec == Init /\ [][Next]_vars
 
 Comments ==
   LET dirText(x) == CASE x = "ignore" -> " stylua: ignore" [] x = "start" -> " stylua: ignore start" [] x = "end" -> " stylua: ignore end"
-      one(d) == CASE d.t = "dir" -> <<[before_stmt |-> d.s - 1, kind |-> "ownlinec", text |-> dirText(d.x), slot |-> 0]>>
+      \* "ignore_ml": the directive on a line of its own inside a multi-line block comment that also says other things
+      one(d) == CASE d.t = "dir" /\ d.x = "ignore_ml" -> <<[before_stmt |-> d.s - 1, kind |-> "mldir", text |-> "stylua: ignore", slot |-> 0]>>
+                  [] d.t = "dir" -> <<[before_stmt |-> d.s - 1, kind |-> "ownlinec", text |-> dirText(d.x), slot |-> 0]>>
                   [] d.t = "sep" /\ d.x = "comment" -> <<[before_stmt |-> d.s - 1, kind |-> "ownlinec", text |-> " note", slot |-> 0]>>
                   [] d.t = "sep" /\ d.x = "blank" -> <<[before_stmt |-> d.s - 1, kind |-> "blankline", text |-> "", slot |-> 0]>>
                   [] d.t = "cmt" -> <<[after_stmt |-> d.s - 1, kind |-> "line", text |-> " tc", slot |-> 0]>>
